@@ -240,3 +240,29 @@ Proof.
   all: try (vm_compute; reflexivity).
   exists 3. split; [vm_compute; split; [reflexivity|discriminate]|reflexivity].
 Qed.
+
+(* Known finding C37 / class mem-store-restart: a coordinator on the in-memory store forgets its vote and its
+   log when its process restarts, so the premise "every node conforms to one committed log" is void for it
+   (it may vote twice in a term and may have acknowledged entries it no longer holds). The persistent store
+   keeps both (C36_recover: r_disk (ropen d) = d). *)
+Inductive store_kind := KMem | KRocks.
+Definition Known_C37_mem_store_restart (k : store_kind) (restarts : nat) : Prop := k = KMem /\ (0 < restarts)%nat.
+Definition restart_keeps_promises (k : store_kind) : Prop :=
+  match k with
+  | KRocks => forall s : rstore, r_disk (ropen (r_disk s)) = r_disk s
+  | KMem => forall s : mstore, ms_vote (mem_restart s) = ms_vote s /\ ms_log (mem_restart s) = ms_log s
+  end.
+Theorem C37_restart_keeps_promises_partial : forall k restarts,
+    ~ Known_C37_mem_store_restart k restarts -> (0 < restarts)%nat -> restart_keeps_promises k.
+Proof.
+  intros [] restarts Hk Hr; cbn.
+  - exfalso. apply Hk. split; auto.
+  - intros s. reflexivity.
+Qed.
+Theorem C37_mem_store_restart_refuted : exists k restarts, Known_C37_mem_store_restart k restarts /\ ~ restart_keeps_promises k.
+Proof.
+  exists KMem, 1%nat. split; [split; [reflexivity|lia]|].
+  intros H. specialize (H (ms_step mstore0 (OVote {| v_term := 1; v_node := 1; v_committed := true |}))).
+  destruct H as [H _]. vm_compute in H. discriminate.
+Qed.
+
